@@ -132,6 +132,9 @@ class _Printer:
                     by_name[v.name].append(v)
         for name, vs in by_name.items():
             if len(vs) > 1:
+                if not any(v.is_graph_output() for v in vs):
+                    # not the renaming of a replaced graph output: the pass itself created two values with one name
+                    raise Unmodelled("duplicate value names created by the pass")
                 keep = [v for v in vs if v.is_graph_output()] or vs[:1]
                 for v in vs:
                     if v is not keep[0]:
